@@ -2,11 +2,11 @@ SPECIFICATION Spec
 CONSTANTS
   Mode = "tables"
   Fmts = {"elf", "pe"}
-  K1 = 2
+  K1 = 1
   K2 = 1
-  K3 = 1
+  K3 = 0
   NVer = 3
-  ReqNames = {"1f_2f_3", "3f_2f_1f", "1_3"}
+  ReqNames = {"1", "1f", "1f_1"}
   Emit = TRUE
 INVARIANT Inv
 CHECK_DEADLOCK FALSE
